@@ -1,7 +1,19 @@
 package sym
 
+// Models of time.Time, time.Duration, durationpb and timestamppb.
+//
+// time.Time is carried as its real struct shape {wall, ext, loc} but with a ghost
+// encoding: wall = 1 marks a set instant, ext = nanoseconds since the Unix epoch;
+// the zero Time is {0,0,nil}.  Every time.Time method the code under test uses is
+// an intrinsic; any other function of package time is un-modelled (inconclusive).
+// durationpb.New / timestamppb.New attach the exact nanosecond value as a ghost to
+// the created message so that AsDuration / AsTime return it without dividing or
+// multiplying by 1e9 (which no back end decides).
+
 import (
 	"go/types"
+
+	"golang.org/x/tools/go/ssa"
 
 	"verif/engine/smt"
 )
@@ -14,8 +26,177 @@ func (ex *Exec) timeType() types.Type {
 	return p.Type("Time").Type()
 }
 
-// mkTime builds a time.Time value carrying ns (nanoseconds since the Unix epoch) as a ghost:
-// wall = 1 (set), ext = ns, loc = nil.  The zero Time is wall=0, ext=0.
 func (ex *Exec) mkTime(ns *smt.Term) Value {
 	return StructV{F: []Value{ex.B.BVC(1, 64), ns, Ptr{}}}
+}
+
+func (ex *Exec) timeParts(v Value) (set, ns *smt.Term) {
+	sv, ok := v.(StructV)
+	if !ok || len(sv.F) != 3 {
+		ex.unsupported("time.Time value of unexpected shape")
+	}
+	return termOf(sv.F[0]), termOf(sv.F[1])
+}
+
+const nsPerSec = 1000000000
+
+func (ex *Exec) setGhostNS(l *Loc, ns *smt.Term) {
+	if l.Ghost == nil {
+		l.Ghost = map[string]Value{}
+	}
+	l.Ghost["ns"] = ns
+}
+
+func ghostNS(l *Loc) (*smt.Term, bool) {
+	if l == nil || l.Ghost == nil {
+		return nil, false
+	}
+	v, ok := l.Ghost["ns"]
+	if !ok {
+		return nil, false
+	}
+	return v.(*smt.Term), true
+}
+
+func init() {
+	tm := "(time.Time)."
+	reg("time.Now", func(ex *Exec, g *G, fn *ssa.Function, args []Value, done func(Value)) {
+		B := ex.B
+		ns := ex.input("time.Now", "int64", smt.BV(64))
+		lim := uint64(1) << 62
+		ex.assume(B.And(B.Slt(B.BVC(-lim, 64), ns), B.Slt(ns, B.BVC(lim, 64))))
+		if ex.clockLast != nil {
+			ex.assume(B.Sle(ex.clockLast, ns))
+		}
+		ex.clockLast = ns
+		done(ex.mkTime(ns))
+	})
+	reg("time.Unix", func(ex *Exec, g *G, fn *ssa.Function, args []Value, done func(Value)) {
+		B := ex.B
+		ns := B.Add(B.Mul(termOf(args[0]), B.BVC(nsPerSec, 64)), termOf(args[1]))
+		done(ex.mkTime(ns))
+	})
+	reg("time.UnixMilli", func(ex *Exec, g *G, fn *ssa.Function, args []Value, done func(Value)) {
+		done(ex.mkTime(ex.B.Mul(termOf(args[0]), ex.B.BVC(1000000, 64))))
+	})
+	reg("time.Since", func(ex *Exec, g *G, fn *ssa.Function, args []Value, done func(Value)) {
+		ex.unsupported("time.Since")
+	})
+	cmpOrder := func(ex *Exec, a, b Value) (lt, eq *smt.Term) {
+		B := ex.B
+		sa, na := ex.timeParts(a)
+		sb, nb := ex.timeParts(b)
+		lt = B.Ite(B.Eq(sa, sb), B.Slt(na, nb), B.Ult(sa, sb))
+		eq = B.And(B.Eq(sa, sb), B.Eq(na, nb))
+		return
+	}
+	reg(tm+"Before", func(ex *Exec, g *G, fn *ssa.Function, args []Value, done func(Value)) {
+		lt, _ := cmpOrder(ex, args[0], args[1])
+		done(lt)
+	})
+	reg(tm+"After", func(ex *Exec, g *G, fn *ssa.Function, args []Value, done func(Value)) {
+		lt, _ := cmpOrder(ex, args[1], args[0])
+		done(lt)
+	})
+	reg(tm+"Equal", func(ex *Exec, g *G, fn *ssa.Function, args []Value, done func(Value)) {
+		_, eq := cmpOrder(ex, args[0], args[1])
+		done(eq)
+	})
+	reg(tm+"Compare", func(ex *Exec, g *G, fn *ssa.Function, args []Value, done func(Value)) {
+		lt, eq := cmpOrder(ex, args[0], args[1])
+		B := ex.B
+		done(B.Ite(lt, ex.intC(-1), B.Ite(eq, ex.intC(0), ex.intC(1))))
+	})
+	reg(tm+"IsZero", func(ex *Exec, g *G, fn *ssa.Function, args []Value, done func(Value)) {
+		s, n := ex.timeParts(args[0])
+		B := ex.B
+		done(B.And(B.Eq(s, B.BVC(0, 64)), B.Eq(n, B.BVC(0, 64))))
+	})
+	reg(tm+"Sub", func(ex *Exec, g *G, fn *ssa.Function, args []Value, done func(Value)) {
+		// exact for instants within +-2^62 ns of the epoch (no saturation there)
+		_, na := ex.timeParts(args[0])
+		_, nb := ex.timeParts(args[1])
+		done(ex.B.Sub(na, nb))
+	})
+	reg(tm+"Add", func(ex *Exec, g *G, fn *ssa.Function, args []Value, done func(Value)) {
+		_, na := ex.timeParts(args[0])
+		done(ex.mkTime(ex.B.Add(na, termOf(args[1]))))
+	})
+	reg(tm+"UnixNano", func(ex *Exec, g *G, fn *ssa.Function, args []Value, done func(Value)) {
+		_, na := ex.timeParts(args[0])
+		done(na)
+	})
+	reg(tm+"UTC|"+tm+"Local|"+tm+"Round|"+tm+"In", func(ex *Exec, g *G, fn *ssa.Function, args []Value, done func(Value)) {
+		if fn.Name() == "Round" {
+			if d, ok := concInt(args[1]); !ok || d != 0 {
+				ex.unsupported("time.Time.Round with non-zero duration")
+			}
+		}
+		done(args[0])
+	})
+	reg(tm+"String|"+tm+"Format", func(ex *Exec, g *G, fn *ssa.Function, args []Value, done func(Value)) {
+		done(ex.strC("<time>"))
+	})
+
+	// ---- durationpb ----
+	reg("google.golang.org/protobuf/types/known/durationpb.New", func(ex *Exec, g *G, fn *ssa.Function, args []Value, done func(Value)) {
+		B := ex.B
+		d := termOf(args[0])
+		info := ex.infoOfPtrT(fn.Signature.Results().At(0).Type())
+		m := ex.newMsg(info)
+		sec := B.SDiv(d, B.BVC(nsPerSec, 64))
+		nanos := B.Extract(B.SRem(d, B.BVC(nsPerSec, 64)), 31, 0)
+		ex.storeRaw(m.L.Kids[info.byName["seconds"].GoIdx], sec)
+		ex.storeRaw(m.L.Kids[info.byName["nanos"].GoIdx], nanos)
+		ex.setGhostNS(m.L, d)
+		done(Ptr{m.L})
+	})
+	reg("(*google.golang.org/protobuf/types/known/durationpb.Duration).AsDuration", func(ex *Exec, g *G, fn *ssa.Function, args []Value, done func(Value)) {
+		p, _ := args[0].(Ptr)
+		if ns, ok := ghostNS(p.L); ok {
+			done(ns)
+			return
+		}
+		// no ghost: execute the real body (bit-precise, saturation included)
+		ex.pushFrame(g, fn, args, nil, done)
+	})
+	// ---- timestamppb ----
+	reg("google.golang.org/protobuf/types/known/timestamppb.New", func(ex *Exec, g *G, fn *ssa.Function, args []Value, done func(Value)) {
+		B := ex.B
+		_, ns := ex.timeParts(args[0])
+		info := ex.infoOfPtrT(fn.Signature.Results().At(0).Type())
+		m := ex.newMsg(info)
+		// floor division for seconds, non-negative nanos
+		q := B.SDiv(ns, B.BVC(nsPerSec, 64))
+		r := B.SRem(ns, B.BVC(nsPerSec, 64))
+		neg := B.Slt(r, B.BVC(0, 64))
+		sec := B.Ite(neg, B.Sub(q, B.BVC(1, 64)), q)
+		nanos := B.Extract(B.Ite(neg, B.Add(r, B.BVC(nsPerSec, 64)), r), 31, 0)
+		ex.storeRaw(m.L.Kids[info.byName["seconds"].GoIdx], sec)
+		ex.storeRaw(m.L.Kids[info.byName["nanos"].GoIdx], nanos)
+		ex.setGhostNS(m.L, ns)
+		done(Ptr{m.L})
+	})
+	reg("google.golang.org/protobuf/types/known/timestamppb.Now", func(ex *Exec, g *G, fn *ssa.Function, args []Value, done func(Value)) {
+		intrinsics["time.Now"](ex, g, fn, nil, func(t Value) {
+			newFn := fn.Pkg.Func("New")
+			intrinsics["google.golang.org/protobuf/types/known/timestamppb.New"](ex, g, newFn, []Value{t}, done)
+		})
+	})
+	reg("(*google.golang.org/protobuf/types/known/timestamppb.Timestamp).AsTime", func(ex *Exec, g *G, fn *ssa.Function, args []Value, done func(Value)) {
+		B := ex.B
+		p, _ := args[0].(Ptr)
+		if ns, ok := ghostNS(p.L); ok {
+			done(ex.mkTime(ns))
+			return
+		}
+		if p.L == nil {
+			done(ex.mkTime(B.BVC(0, 64))) // GetSeconds/GetNanos of nil are 0: the Unix epoch
+			return
+		}
+		info := ex.infoOfPtrT(fn.Signature.Recv().Type())
+		sec := termOf(p.L.Kids[info.byName["seconds"].GoIdx].V)
+		nanos := B.Sext(termOf(p.L.Kids[info.byName["nanos"].GoIdx].V), 64)
+		done(ex.mkTime(B.Add(B.Mul(sec, B.BVC(nsPerSec, 64)), nanos)))
+	})
 }
